@@ -745,6 +745,12 @@ impl File {
             if self.direct_io {
                 ctx.fs.direct_io_fds.insert(new_fd);
             }
+            if !self.readable {
+                ctx.fs.unreadable_fds.insert(new_fd);
+            }
+            if !self.writable {
+                ctx.fs.unwritable_fds.insert(new_fd);
+            }
 
             Ok(File {
                 fd: new_fd,
@@ -1004,6 +1010,8 @@ impl Drop for File {
         FsContext::current_if_set(|ctx| {
             ctx.fs.open_handles.swap_remove(&self.fd);
             ctx.fs.direct_io_fds.swap_remove(&self.fd);
+            ctx.fs.unreadable_fds.swap_remove(&self.fd);
+            ctx.fs.unwritable_fds.swap_remove(&self.fd);
         });
     }
 }
@@ -1375,6 +1383,13 @@ impl OpenOptions {
             let direct_io = self.direct_io || (self.custom_flags & O_DIRECT) != 0;
             if direct_io {
                 ctx.fs.direct_io_fds.insert(fd);
+            }
+            // Access mode, for front-ends that only see the raw fd (io_uring)
+            if !self.read {
+                ctx.fs.unreadable_fds.insert(fd);
+            }
+            if !(self.write || self.append) {
+                ctx.fs.unwritable_fds.insert(fd);
             }
 
             Ok(File::from_parts(
